@@ -58,7 +58,7 @@ Definition pool_within (n : nat) (w : world) : Prop := forall k, n <= k -> blk (
 Definition aidx (op : @aop A) : list nat :=
   match op with
   | ANewSized i _ _ | AAppendItem i _ | AAppendOwn i _ | AClear i | AReset i | ADetach i | AReserve i _ _
-  | AResize i _ | AResizeInit i _ | AExpect i _ | ACompress i | ADrop i _ => [i]
+  | AResize i _ | AResizeInit i _ | AExpect i _ | ACompress i | ADrop i _ | ASwap i _ _ | AIter i => [i]
   | ACopyCtor i j | AMoveCtor i j | AMoveAssign i j | ACopyAssign i j | AAppendMove i j | AAppendCopy i j => [i; j]
   end.
 End Ledger.
@@ -67,7 +67,7 @@ Definition sidx (op : sop) : list nat :=
   match op with
   | SDefault i | SNewLen i _ | SNewCopy i _ | SNewCstr i _ | SNewAdopt i _ | SAssignCstr i _ | SAssignOwn i _
   | SAppendCstr i _ | SAppendChar i _ | SWrite i _ | SEqCstr i _ | SEqNull i | SIsEqual i _ | SReset i | SDetach i
-  | SStepBack i _ | SReverse i _ | SInsertAt i _ _ => [i]
+  | SStepBack i _ | SReverse i _ | SInsertAt i _ _ | SIter i | SLast i | SIsEmpty i | SStreamOut i => [i]
   | SCopyCtor i j | SMoveCtor i j | SMoveAssign i j | SCopyAssign i j | SAppendMove i j | SAppendObj i j
   | SPlusCstr i j _ | STrim i j | SEqObj i j => [i; j]
   | SPlus i j k _ => [i; j; k]
@@ -77,7 +77,7 @@ Definition tidx (op : top) : list nat :=
   match op with
   | TNew i _ | TAssignExt i _ | TAssignCstr i _ | TAppendChar i _ | TAppendExt i _ | TAppendCstr i _ | TEqExt i _ | TEqCstr i _
   | TClear i | TReset i | TDetach i | TStepBack i _ | TReverse i _ | TInsertAt i _ _ | TSetLength i _ _ | TBuffer i _
-  | TExpect i _ | TReserve i _ | TGetString i | TGetStringView i | TInsertNull i => [i]
+  | TExpect i _ | TReserve i _ | TGetString i | TGetStringView i | TInsertNull i | TIter i | TStreamOut i => [i]
   | TCopyCtor i j | TMoveCtor i j | TMoveAssign i j | TCopyAssign i j | TAppendObj i j | TEqObj i j => [i; j]
   end.
 
